@@ -90,7 +90,7 @@ def buffers(ctx):
                 if clock[c]:
                     row.append(None if null else ts_bytes(r))
                 else:
-                    row.append(None if null else r.choice([r.randrange(100000), bytes(r.getrandbits(8) for _ in range(3)), [1, 2], True]))
+                    row.append(None if null else r.choice([r.randrange(100000), 0, 0, False, b"", [], bytes(r.getrandbits(8) for _ in range(3)), [1, 2], True]))
             rows.append(row)
         out.append([clock, period, rows])
         if rows and r.random() < 0.3:
